@@ -173,19 +173,19 @@ package memfs
 
 //@ func (*MemFS).createDir
 //@   mode bv
-//@   requires parent != nil
+//@   requires parent != nil && wheld(parent.mu)
 //@   ensures[C03] fresh(r0) && r0.mode == vfs.dirMode | (perm & avfs.FileModeMask &^ vfs.umask) && r0.uid == vfs.user.Uid() && r0.gid == vfs.user.Gid()
 //@   ensures[C05] dom(parent.children, name) && parent.children[name] is *dirNode && parent.children[name].(*dirNode) == r0
 
 //@ func (*MemFS).createFile
 //@   mode bv
-//@   requires parent != nil
+//@   requires parent != nil && wheld(parent.mu)
 //@   ensures[C03] fresh(r0) && r0.mode == vfs.fileMode | (perm & avfs.FileModeMask &^ vfs.umask) && r0.uid == vfs.user.Uid() && r0.gid == vfs.user.Gid()
 //@   ensures[C05] r0.nlink == 1 && dom(parent.children, name) && parent.children[name] is *fileNode && parent.children[name].(*fileNode) == r0
 
 //@ func (*MemFS).createSymlink
 //@   mode bv
-//@   requires parent != nil
+//@   requires parent != nil && wheld(parent.mu)
 //@   ensures[C03] fresh(r0) && r0.mode == fs.ModeSymlink | fs.ModePerm && r0.uid == vfs.user.Uid() && r0.gid == vfs.user.Gid()
 //@   ensures[C04,C05] r0.link == link && dom(parent.children, name) && parent.children[name] is *symlinkNode && parent.children[name].(*symlinkNode) == r0
 
@@ -218,3 +218,13 @@ package memfs
 //@   loop 0 invariant pi.end <= 281474976710657
 //@   loop 0 invariant 0 <= slCount && slCount <= slCountMax
 //@   modifies nothing
+
+//@ func (*dirNode).addChild
+//@   requires wheld(dn.mu) && child != nil
+//@   ensures[C05] dom(dn.children, name) && dn.children[name] == child
+//@   ensures[C05] forall n string :: n != name ==> dom(dn.children, n) == old(dom(dn.children, n)) && dn.children[n] == old(dn.children[n])
+
+//@ func (*dirNode).removeChild
+//@   requires wheld(dn.mu)
+//@   ensures[C05] !dom(dn.children, name)
+//@   ensures[C05] forall n string :: n != name ==> dom(dn.children, n) == old(dom(dn.children, n)) && dn.children[n] == old(dn.children[n])
